@@ -9,6 +9,6 @@ Extraction Language OCaml.
 
 Definition coeffsQ (it : Z) (f : Qc) : list Qc := coeffs (K:=QcF) it f.
 
-Extraction "model.ml"
+Extraction "model_kick.ml"
   Q2Qc this rnd32 Qctrunc Qcfrac
   coeffsQ kick_y_list kick_x_list table_list defined_list.
